@@ -211,7 +211,7 @@ func c09Body(t *testing.T, s *sim.Scn, o *sim.Outcome) {
 			}
 		case "script":
 			h := first + uint64(op.A%8)
-			k := sim.ReadKind(1 + op.B%4)
+			k := sim.ReadKind(1 + op.B%5) // 1-4 failures, 5 a correct answer that takes longer than the request timeout
 			da.ReadScript[h] = append(da.ReadScript[h], sim.ReadOutcome{Kind: k, Chunk: int(op.C % 2), Flavor: int(op.C>>1) % 6})
 		}
 	}
@@ -430,7 +430,7 @@ func c09Gen(r *rand.Rand, tier string) *sim.Scn {
 	}
 	ns := r.IntN(12)
 	for i := 0; i < ns; i++ {
-		s.Ops = append(s.Ops, sim.Op{K: "script", A: r.Int64N(8), B: r.Int64N(4), C: r.Int64N(12)})
+		s.Ops = append(s.Ops, sim.Op{K: "script", A: r.Int64N(8), B: []int64{0, 1, 2, 3, 0, 1, 2, 3, 4}[r.IntN(9)], C: r.Int64N(12)})
 	}
 	nr := 1 + r.IntN(12)
 	for i := 0; i < nr; i++ {
